@@ -71,6 +71,20 @@ CLAIMED = {
               "rationals in the model and compared to 1e-9 with the implementation's floats."),
         technique="Coq proof (generic regex-token lemma + vm_compute reflection over generated tables) + exhaustive form x configuration correspondence",
         design="7 C07"),
+    "C08": dict(
+        text=("Theorems (Props/C08.v): str(p) is characterised explicitly for every point (per representation x precision form x Z or "
+              "sign hh:mm) and overflows only for negative years without expanded digits; for expanded digits 0/2/3, every valid point whose "
+              "year fits and whose fractions have at most six digits (all three representations, hh:mm:ss[,tt], hh:mm,nn, hh,ii, 24:00, every "
+              "offset, negative and expanded years) parses back from str(p) to a point equal field by field, and str of that point is the "
+              "same text; the decimal printer/reader inverse is proved in full; custom formats: complete date expression x time down to "
+              "seconds x Z, a literal numeric zone (+-hh, +-hhmm, +-hh:mm) or the +hhmm/+hh:mm placeholder, same notation throughout, whole "
+              "seconds: the dumped text parses back to a point that compares Eq and carries the format's zone. Counterexamples for what is "
+              "outside the hypotheses (1/3 s, year 10000 without expanded digits, mixed basic/extended formats, '+hh' on a half-hour zone) "
+              "are evaluated in the file."),
+        note=("Custom-format theorems carry _partial: fractional seconds, hh:mm / hh points, reduced or decimal expressions and formats without a "
+              "zone designator are covered by the correspondence only; ned restricted to the values with generated tables (0, 2, 3)."),
+        technique="Coq proof (explicit string form + C07 render/match machinery + constructor characterisation) + correspondence with exact string comparison",
+        design="7 C08"),
     "C09": dict(
         text=("Theorems (Props/C09.v): the constructor accepts a calendar / ordinal / week date tuple exactly when Spec valid_cal / valid_ord / "
               "valid_week holds in the mode and the time and zone fields are in range (both directions); every full point the time-point parser "
@@ -103,10 +117,11 @@ CLAIMED = {
         text=("Theorems (Props/C20.v): the specification next_match really is the least matching (day, second) not earlier than the start "
               "(soundness and least-ness of the bounded search; date-of-day-number inverse functions proved); for a truncated point with time "
               "fields only (all seven hour/minute/second combinations), unknown zone, and any valid whole-second point: the model's result is "
-              "that least match, valid, in the point's offset and representation, and idempotent; for one day designator without time fields: "
-              "termination, match, not earlier, same time of day (C20_day_partial: least-ness there rests on the oracle run); T24 runs to the "
-              "loop bound and the hour-less day+minute target is not least (refuted statements = known findings F8b, F10)."),
-        note=("Least-ness for day designators and for truncated points with their own zone is decided by the correspondence + Spec oracle only; "
+              "that least match, valid, in the point's offset and representation, and idempotent; for one day designator (weekday, day of month "
+              "<= 28, day of year <= 360) without time fields (C20_day_least) or with an hour and optional minute/second (C20_day_time_least): "
+              "the result is the least match, valid, in the point's offset (and idempotent); T24 runs to the loop bound and the hour-less "
+              "day+minute target is not least (refuted statements = known findings F8b, F10)."),
+        note=("Least-ness for week+weekday designators, days 29-31 / 361-366, and for truncated points with their own zone is decided by the correspondence + Spec oracle only; "
               "fractional hour/minute forms of the full point are the float regime (known finding F11)."),
         technique="Coq proof (loop invariants for unit stepping; specification proved least) + correspondence with per-call timeout + Spec oracle",
         design="7 C20"),
